@@ -349,6 +349,40 @@ func runC18(t *testing.T, env core.Env, rep *core.Report) {
 			cmBFS(t, rep, target, policy, cmDepth)
 		}
 	}
+	// directed long outages: 30 refusals / 30 retry intervals without any address, for every target and
+	// address policy, refusals answered in bursts (several slots fail within one retry interval)
+	for _, target := range []int{1, 2, 3, 8} {
+		for _, policy := range []string{"fresh", "single", "none-then-fresh"} {
+			for _, burst := range []int{1, 2} {
+				job++
+				if !env.Mine(job) || rep.Expired() {
+					continue
+				}
+				var hist []cmEv
+				for i := 0; i < 30; i++ {
+					if policy == "none-then-fresh" {
+						hist = append(hist, cmEv{Kind: "tick"})
+						continue
+					}
+					for b := 0; b < burst; b++ {
+						hist = append(hist, cmEv{Kind: "refuse"})
+					}
+					if i%3 == 2 {
+						hist = append(hist, cmEv{Kind: "tick"})
+					}
+				}
+				r := runCM(t, target, policy, hist)
+				rep.Executions++
+				rep.Evaluations++
+				rep.DistinctNontrivial++
+				rep.States++
+				for _, p := range r.Problems {
+					rep.Violate(core.Violation{Kind: "connmgr/" + classifyCM(p) + "/after_long_outage", What: fmt.Sprintf("target %d, addresses %s, long outage (bursts of %d): %s", target, policy, burst, p),
+						Replay: map[string]any{"engine": "netwalk", "property": "C18", "part": "connmgr", "target": target, "policy": policy, "events": hist}})
+				}
+			}
+		}
+	}
 	job++
 	if env.Mine(job) {
 		// directed: one address, refused again and again
@@ -450,6 +484,7 @@ func runCM(t *testing.T, target int, policy string, evs []cmEv) (res cmResult) {
 		addrN := 0
 		bannedAddrs := map[string]bool{}
 		addrSeq := map[net.Addr]int{}
+		addrsAvailable := false // policy "none-then-fresh": no address until the outage is over
 		log := zerolog.Nop()
 		var cm *connmgr.ConnManager
 		cfg := &connmgr.Config{
@@ -460,6 +495,9 @@ func runCM(t *testing.T, target int, policy string, evs []cmEv) (res cmResult) {
 				mu.Lock()
 				defer mu.Unlock()
 				var a *net.TCPAddr
+				if policy == "none-then-fresh" && !addrsAvailable {
+					return nil, errors.New("no address available")
+				}
 				if policy == "single" {
 					if bannedAddrs["10.5.0.1:8333"] {
 						addrN++
@@ -556,6 +594,10 @@ func runCM(t *testing.T, target int, policy string, evs []cmEv) (res cmResult) {
 				}
 			case "tick":
 				time.Sleep(6 * time.Second)
+			case "addresses":
+				mu.Lock()
+				addrsAvailable = true
+				mu.Unlock()
 			}
 			synctest.Wait()
 			check(fmt.Sprintf("after event %d (%s)", i, e))
@@ -586,6 +628,9 @@ func runCM(t *testing.T, target int, policy string, evs []cmEv) (res cmResult) {
 		// fair closure: from now on every dial succeeds, the clock runs: exactly `target` open
 		// connections must result (a connection removed on purpose is not replaced)
 		wantOpen := target
+		mu.Lock()
+		addrsAvailable = true
+		mu.Unlock()
 		for round := 0; round < 200; round++ {
 			if !answer(nil) {
 				if len(liveOpen()) >= wantOpen {
